@@ -98,7 +98,12 @@ def inject(prog, kind, rng, place, order, pos):
     b = a if (place == "same" or len(names) == 1) else rng.choice(names)
     if order:
         a, b = b, a
+    used = {d["id"] for d in prog["desc"]["defs"].values() if d.get("id") is not None} | set(prog["desc"]["reserved"])
     base = 7000 + rng.randint(0, 900)
+    for _ in range(200):     # the injected ids (base-3 .. base+51) must be free in the generated closure
+        if not any(x in used for x in range(base - 3, base + 52)):
+            break
+        base = rng.randint(200, 9900)
     u = rng.randint(0, 9999)
 
     def msg(name, mid, signal=False):
